@@ -184,6 +184,9 @@ func init() {
 				c.Add(visitors.InsertSpec(p, "pkg/visitor/formatter"))
 			}
 		})
+	extendProp("C10", "builder-ends: the twelve combinators of the position builder take start offset and line from the first boundary and end offset and line from the last (round 6 seed C10-17: NewNodeTokenPosition took EndLine from the token's StartLine; the two grammars close `const A = 1;` with different combinators, so the trees differ where `;` and a following `?>` form one multi-line token). linear now also requires a list that is taken apart by index to be placed completely ([0] with [1:], [:last] with [last]) (seed C10-16: `append($3[:len($3)-1], $4[0])` lost every dereference after a method call under PHP 5).",
+		[]report.Floor{{Rule: "builder-ends", What: "combinators", Min: 12}},
+		func(c *Ctx) { c.builderEnds() })
 	extendProp("C14", "presence-oracle: which slots of which node kinds a silently parsed tree may leave empty equals the reviewed table - a name node's kind is told by its tokens (a NameRelative has its `namespace` keyword, a NameFullyQualified its leading separator), and the resolver chooses the rule by kind (seed C14-13: `\\Vendor\\X` in a PHP 5 constant expression built as a NameRelative without the keyword, resolved against the current namespace).",
 		[]report.Floor{{Rule: "presence-oracle", What: "slots", Min: 1100}},
 		func(c *Ctx) { defer c.cleanup(); c.presenceOracle() })
